@@ -313,13 +313,54 @@ def task_version_lookup(pr, repo):
     C16.task_version_hb(pr, repo)
 
 
+def task_created_types(pr, repo):
+    """CT: the group types the program can create are the ones enumerated for the exhaustive look-up check GR: every group returned
+    by the real ligand / protein / ion classification, for every SYBYL type the classifier mentions and 0..6 bonded heavy atoms, carries a
+    type that is assigned as a string literal in propka/group.py (the census GR ranges over)."""
+    from . import C01
+    ex = Executor(repo)
+    GM = 'propka.group.'
+    fi = repo.func(GM + 'is_ligand_group_by_groups')
+    pr.under_contract(fi)
+    ex.contracts['propka.protonate.Protonate.protonate_atom'] = lambda *a, **k: None
+    census = group_types_from_ast(repo)
+    sybyl = sorted({n.value for n in _ast.walk(fi.node) if isinstance(n, _ast.Constant) and isinstance(n.value, str)
+                    and (n.value[:1].isupper() and len(n.value) <= 5 and ' ' not in n.value)})
+    pr.add(Ground('CT: SYBYL types mentioned by the ligand classifier are enumerated (%d)' % len(sybyl), len(sybyl) >= 10, kind='aux',
+                  detail=str(sybyl)))
+    params = record('P', None, ligand_typing='groups')
+
+    def thunk(ex, ctx):
+        made = {}
+        for sy in sybyl:
+            for heavy in range(0, 7):
+                for el in ('C', 'N', 'O', 'P'):
+                    nb = [C01.mkatom(repo, element=el, name='%s%d' % (el, i), sybyl_type={'C': 'C.3', 'N': 'N.pl3', 'O': 'O.co2', 'P': 'P.3'}[el])
+                          for i in range(heavy)]
+                    at = C01.mkatom(repo, type='hetatm', res_name='LIG', name='X1', sybyl_type=sy, bonded_atoms=nb,
+                                    element=sy.split('.')[0])
+                    for b in nb:
+                        b.attrs['bonded_atoms'] = [at]
+                    g = ex.call_function(fi, [params, at])
+                    if isinstance(g, Obj):
+                        made.setdefault(g.attrs.get('type'), (sy, heavy, el))
+        im = cfg.parameters().interaction_matrix
+        unknown = {t: w for t, w in made.items() if not isinstance(t, str) or (t not in census and t not in im.dictionary)}
+        ctx.oblige('CT: every group the ligand classification creates (SYBYL type x 0..6 bonded heavy atoms of C / N / O / P) carries one of '
+                   'the %d literal group types that the look-up check GR enumerates, or a type with a row in the shipped interaction '
+                   'matrix - no type without a row is made up at run time' % len(census),
+                   not unknown and len(made) >= 10)
+        ctx.notes.append('created: %s; outside the census: %s' % (sorted(map(str, made)), unknown))
+    pr.explore(ex, thunk, 'created group types')
+
+
 def run(pr, repo):
     pr.level = 'other'
     pr.explanation = ('deductive proof of the table invariants (VC) + exhaustive ground evaluation of the shipped file; '
                       'level is "other" because 3 recorded known findings (D10a-c) mean the completeness clause does NOT hold on this tree: '
                       'their obligations are refuted on every run and reported as KNOWN-FINDING, so discharged < obligations')
     from . import C03
-    pr.parallel([(task_pairwise, ()), (task_interaction, ()), (task_squared, ()), (task_read_file, ()), (C03.task_param_lookup, ()), (task_version_lookup, ())])
+    pr.parallel([(task_pairwise, ()), (task_interaction, ()), (task_squared, ()), (task_read_file, ()), (C03.task_param_lookup, ()), (task_version_lookup, ()), (task_created_types, ())])
     ground_shipped(pr, repo)
     pr.assumptions += ['PW: pre-states range over the universe {g1, g2, other}; entries of further names behave like "other" '
                        '(add() touches only the two keys it is given)',
